@@ -15,7 +15,7 @@ EXPLANATION = (
     "Processor::eval / Workspace::eval / wasm::process return Err on evaluation errors; (R5) PIPE-AGREE - run and "
     "oal_wasm::process call the same pipeline stages in the same order. Observed exit status, file contents, wording of "
     "diagnostics and document equality across front ends are not decided.")
-EXPLANATION += " Further clauses: (R6) LOADER-TEXT; (R7) OPTION-PRECEDENCE - Config::{main,target,base} take the command-line option first, each from its own field; (R8) the server recomputes diagnostics from the current texts after every notification and publishes all of them (shared C15.R1/R2/R3/R6); (R9) LOCATION-FREE - implicit component names identify a module relative to the main module, so CLI, playground and two checkouts agree. (R10) LOCATORS (shared C10.R7). R8 also shares C15.R4. (R11) LOCATED - the module loader's own errors are handed to the front end's reporting function."
+EXPLANATION += " Further clauses: (R6) LOADER-TEXT; (R7) OPTION-PRECEDENCE - Config::{main,target,base} take the command-line option first, each from its own field; (R8) the server recomputes diagnostics from the current texts after every notification and publishes all of them (shared C15.R1/R2/R3/R6); (R9) LOCATION-FREE - implicit component names identify a module relative to the main module, so CLI, playground and two checkouts agree. (R10) LOCATORS (shared C10.R7). R8 also shares C15.R4. (R11) LOCATED - the module loader's own errors are handed to the front end's reporting function. (R12) WIDTH-FREE - nothing of pointer width is fed into the digest that names a component."
 TECHNIQUE = "static analysis: who-may-call over the call graph + MIR dominance / error-arm reachability"
 
 RAW_WRITERS = re.compile(r'^(std::fs::(write|remove_file|remove_dir|remove_dir_all|rename|copy|create_dir|create_dir_all|hard_link|set_permissions)'
@@ -515,7 +515,34 @@ def r11_located(c, facts):
         c.ok(R, {'Workspace::load': 'every failure of module::load is logged'})
 
 
+def r12_width_free(c, facts, rule='C13.R12'):
+    """the playground is a wasm32 build, the CLI a 64-bit one: what is hashed into the name of a component must have the
+    same byte representation on both - no `usize` / `isize` turned into bytes"""
+    R = c.rule(rule, 'WIDTH-FREE: nothing of pointer width is fed into the digest that names a component')
+    n = 0
+    wide = []
+    for q in ('oal_model::grammar::NodeRef::digest', 'oal_compiler::eval::Context::node_identifier'):
+        fn = c.anchor(R, q)
+        for g in [fn] + list(facts.closures_of(fn)):
+            if not g.mir:
+                continue
+            for b, t in g.calls():
+                info = callee_of(t)
+                d = P.strip(info['def']) if info else ''
+                if d.split('::')[-1] in ('to_be_bytes', 'to_le_bytes', 'to_ne_bytes'):
+                    n += 1
+                    ty = (info.get('self_ty') or (t['args'][0].get('ty') if t['args'] else '') or '')
+                    if ty in ('usize', 'isize') or 'impl usize' in d or 'impl isize' in d:
+                        wide.append(q.split('::')[-1])
+    c.floor(R, 'integers turned into digest input', n, 2)
+    if wide:
+        c.bad(R, 'digest-input-of-pointer-width:%s' % ','.join(sorted(set(wide))), '%s feeds the bytes of a usize into the digest: 8 bytes on the 64-bit CLI, 4 bytes in the wasm32 playground, so the same sources get different `hash-...` component names (and $refs) in the two front ends' % sorted(set(wide)))
+    else:
+        c.ok(R, {'digest': 'fixed-width integers only', 'conversions': n})
+
+
 def run(c, facts):
+    c.run(r12_width_free, facts)
     c.run(r11_located, facts)
     c.run(r9_location_free, facts)
     c.run(r7_option_precedence, facts)
